@@ -25,6 +25,8 @@ pub struct WriteAheadLog {
     flush_queue: VecDeque<WalBlock>,
     file: DBFile,
     block_size: usize,
+    /// Number of data blocks (index >= 1) that are complete on disk.
+    flushed_blocks: u64,
 }
 
 impl FileOperations for WriteAheadLog {
@@ -40,6 +42,7 @@ impl FileOperations for WriteAheadLog {
             flush_queue: VecDeque::new(),
             file,
             block_size,
+            flushed_blocks: 0,
         })
     }
 
@@ -61,12 +64,14 @@ impl FileOperations for WriteAheadLog {
             block_size
         };
 
+        let flushed_blocks = header_buf.metadata().wal_header.total_blocks.saturating_sub(1);
         Ok(Self {
             header: header_buf,
             current_block: None, // If needed, will be allocated on push.
             flush_queue: VecDeque::new(),
             file,
             block_size,
+            flushed_blocks,
         })
     }
 
@@ -83,6 +88,7 @@ impl FileOperations for WriteAheadLog {
         self.header = BlockZero::alloc(0, self.block_size);
         self.current_block = None;
         self.flush_queue.clear();
+        self.flushed_blocks = 0;
         Ok(())
     }
 }
@@ -147,7 +153,8 @@ impl WriteAheadLog {
     }
 
     pub(crate) fn last_lsn(&self) -> Option<Lsn> {
-        self.header.last_lsn()
+        // The last LSN of the whole log, not only of block zero: records in later blocks need fresh numbers too.
+        self.header.metadata().wal_header.global_last_lsn
     }
 
     /// Runs the analysis phase of the ARIES recovery protocol.
@@ -303,7 +310,11 @@ impl WriteAheadLog {
 
         // Try to write to block zero first
         if self.current_block.is_none() {
-            if self.header.available_space() >= record_size {
+            // Block zero only takes records while no data block exists, otherwise the log order would break.
+            if self.flushed_blocks == 0
+                && self.flush_queue.is_empty()
+                && self.header.available_space() >= record_size
+            {
                 self.header.try_push(lsn, record)?;
                 return Ok(());
             }
@@ -355,15 +366,16 @@ impl WriteAheadLog {
     }
 
     pub fn perform_flush(&mut self) -> io::Result<()> {
-        // Block 0 always exists, additional blocks start at index 1
-        let mut block_number: u64 = 1;
-        let mut write_offset = self.block_size as u64;
+        // Block 0 always exists, additional blocks are appended after the ones already on disk
+        let mut block_number: u64 = 1 + self.flushed_blocks;
+        let mut write_offset = block_number * self.block_size as u64;
 
         // Flush queued blocks
         while let Some(block) = self.flush_queue.pop_front() {
             self.file.seek(SeekFrom::Start(write_offset))?;
             self.file.write_all(block.as_ref())?;
             block_number += 1;
+            self.flushed_blocks += 1;
             write_offset += self.block_size as u64;
         }
 
@@ -379,7 +391,8 @@ impl WriteAheadLog {
         // Update header metadata
         self.header.metadata_mut().wal_header.total_blocks = block_number;
 
-        if let Some(block) = self.current_block.take() {
+        // The partial block stays in memory: later records keep filling it and it is rewritten in place.
+        if let Some(ref block) = self.current_block {
             self.header.metadata_mut().wal_header.last_block_used =
                 block.metadata().used_bytes as u32;
         } else {
